@@ -3,6 +3,7 @@
 #![allow(dead_code)]
 
 mod engine;
+mod gens;
 mod props;
 mod sqlrun;
 
@@ -30,6 +31,39 @@ fn main() {
     if cmd == "list" {
         for p in props::all() {
             println!("{} {}", p.id, p.parts.iter().map(|x| x.name().to_string()).collect::<Vec<_>>().join(","));
+        }
+        return;
+    }
+    if cmd == "sql" {
+        // rlv sql [--disk] "stmt" "stmt" ...   (development aid)
+        let disk = args.iter().any(|a| a == "--disk");
+        let stmts: Vec<String> = args[2..].iter().filter(|a| !a.starts_with("--")).cloned().collect();
+        let r = sqlrun::block_on(async move {
+            let dir = std::env::temp_dir().join(format!("rlv-sql-{}", std::process::id()));
+            let db = if disk {
+                sqlrun::open_disk(&sqlrun::DiskCfg::small(), &dir).await.unwrap()
+            } else {
+                risinglight::Database::new_in_memory()
+            };
+            for s in stmts {
+                if s == "TICK" {
+                    sqlrun::tick().await;
+                    continue;
+                }
+                let o = sqlrun::exec(&db, &s).await;
+                println!("{s}\n  => {}", o.brief());
+                let p = sqlrun::take_panics();
+                if !p.is_empty() {
+                    println!("  panics: {p:?}");
+                }
+            }
+            if disk {
+                let _ = sqlrun::shutdown(&db).await;
+                let _ = std::fs::remove_dir_all(&dir);
+            }
+        });
+        if let Err(e) = r {
+            println!("panic: {e}");
         }
         return;
     }
